@@ -91,6 +91,34 @@ func c09RaceChild(args []string) {
 			}
 		})
 	}
+	// a scope identity that is closed and obtained again all the time, by two goroutines: one of them
+	// keeps using the handle the other has just closed (metrics of every kind, timers included)
+	for g := 0; g < 2; g++ {
+		worker(func(i int) {
+			sub := scope.Tagged(map[string]string{"k": "cycled"})
+			sub.Timer("t").Record(time.Microsecond)
+			sub.Counter("c").Inc(1)
+			sub.Gauge("g").Update(1)
+			sub.Histogram("h", tally.ValueBuckets{1}).RecordValue(1)
+			if i%3 == 0 {
+				if cl, ok := sub.(interface{ Close() error }); ok {
+					cl.Close()
+				}
+			}
+			sub.Timer(fmt.Sprintf("t%d", i%7)).Record(time.Microsecond)
+		})
+	}
+	// histograms whose bucket sets share an identity in the bucket cache, and new sets after them
+	worker(func(i int) {
+		switch i % 3 {
+		case 0:
+			scope.Histogram(fmt.Sprintf("ha%d", i), tally.DurationBuckets{10 * time.Millisecond, 30 * time.Millisecond}).RecordDuration(time.Millisecond)
+		case 1:
+			scope.Histogram(fmt.Sprintf("hb%d", i), tally.DurationBuckets{15 * time.Millisecond, 25 * time.Millisecond}).RecordDuration(time.Millisecond)
+		case 2:
+			scope.Histogram(fmt.Sprintf("hc%d", i), tally.ValueBuckets{float64(i), float64(i) + 1}).RecordValue(1)
+		}
+	})
 	// reporting and snapshots
 	var rg sync.WaitGroup
 	if mode&2 == 2 {
@@ -147,7 +175,9 @@ func (nullH) ValueBucket(_, _ float64) tally.CachedHistogramBucket            { 
 func (nullH) DurationBucket(_, _ time.Duration) tally.CachedHistogramBucket   { return nullH{} }
 
 // c09RaceStorm runs the child once per mode and reports a dead child.
-func c09RaceStorm(ctx *Ctx, rounds int) {
+func c09RaceStorm(ctx *Ctx, rounds int) { apiStorm(ctx, rounds, "scope_api_is_safe_for_concurrent_use") }
+
+func apiStorm(ctx *Ctx, rounds int, pred string) {
 	for mode := 0; mode < 8; mode++ {
 		if mode&4 == 4 && mode&1 == 1 {
 			continue // a test scope has no reporter flavour
@@ -169,8 +199,8 @@ func c09RaceStorm(ctx *Ctx, rounds int) {
 					break
 				}
 			}
-			ctx.Fail("scope_api_is_safe_for_concurrent_use",
-				fmt.Sprintf("4 goroutines using existing metrics and registering new ones on one scope (mode %d: cached=%v, passes/snapshots=%v, test scope=%v): %s (%v)",
+			ctx.Fail(pred,
+				fmt.Sprintf("7 goroutines using existing metrics, registering new ones, closing and re-obtaining a subscope and creating histograms with colliding bucket sets on one scope (mode %d: cached=%v, passes/snapshots=%v, test scope=%v): %s (%v)",
 					mode, mode&1 == 1, mode&2 == 2, mode&4 == 4, what, err), cs, txt)
 			return
 		}
